@@ -21,10 +21,11 @@ import ast
 
 import z3
 
-from pyvc.api import contract, lemma, Any, Int, Bool, Str, Dict, Opt, Rec, SeqOf, TupleOf, Opaque, implies, call, mk
+from pyvc.api import (contract, lemma, Any, Int, Bool, Str, Dict, Opt, Rec, SeqOf, TupleOf, Opaque, implies, call, mk,
+                      is_str_list, as_str_list)
 from pyvc.ex_call import external, EXTERNALS
 from pyvc.run import RaiseSig
-from pyvc.ty import VBool, VStr, VNode, VOpaque, VAny, VExc, VInt, Unsupported, fresh_name, ValSort
+from pyvc.ty import VBool, VStr, VNode, VOpaque, VAny, VExc, VInt, VOpt, Unsupported, fresh_name, ValSort
 from contracts._common import ViolationT, PathT, path_str
 from contracts._nodes import PyNode
 from contracts import c09_paths  # noqa: F401  (registers the pathlib externals Path.exists / Path.@suffix used below)
@@ -62,12 +63,24 @@ def _x_ast_parse(ex, args, kwargs, lineno):
     during ast construction') or MemoryError ('Parser stack overflowed')."""
     ex.ufs_used.add("ast.parse returns a Module node or raises SyntaxError / RecursionError / MemoryError")
     _may_raise(ex, ("SyntaxError", "RecursionError", "MemoryError"), lineno)
-    n = z3.Const(fresh_name("module"), PyNode.sort())
+    a = args[0] if args else None
+    if isinstance(a, VOpt) and isinstance(a.val, VStr) and ex.known(a.isnone) is False:
+        a = a.val   # `code or ""`: an optional that cannot be None here
+    if isinstance(a, VStr) and not a.is_bytes:
+        n = z3.Function("uf.ast_module_of", z3.StringSort(), PyNode.sort())(a.t)   # the tree is a function of the text
+    else:
+        n = z3.Const(fresh_name("module"), PyNode.sort())
     ex.assume(n != PyNode.null)
     ex.assume(PyNode.attr_func("kind_")(n) == z3.StringVal("Module"))
     return VNode(n, PyNode)
 
 
+
+from pyvc.api import uf  # noqa: E402
+
+ast_module_of = uf("ast_module_of", [Str], PyNode, concrete=lambda text: ast.parse(text))  # CPython's tree of a text
+# structure AND positions of a tree as text (two parses of one text are different objects: compare them through this)
+ast_positions = uf("ast_dump_with_positions", [PyNode], Str, concrete=lambda n: "" if n is None else ast.dump(n, include_attributes=True))
 
 # ================================================================== orchestrator: reading the file
 O = "src/orchestrator/core.py::"
@@ -155,6 +168,10 @@ class ExtractIgnorePatterns:
     def ensures_non_dict_gives_nothing(config, result):
         return implies(not isinstance(config, dict), len(result) == 0)
 
+    def ensures_string_patterns_are_taken_verbatim(config, result):
+        return implies(isinstance(config, dict) and "ignore" in config and is_str_list(config["ignore"]),
+                       result == as_str_list(config["ignore"]))
+
 
 @contract(IG + "_parse_thailintignore_file", props=["C11"], types=dict(ignore_file=PathT), returns=SeqOf(Str), raises=[])
 class ParseThailintignoreFile:
@@ -195,7 +212,7 @@ class ProtoCreateSyntaxError:
         return True
 
 
-@contract(LU + "parse_python_ast", props=["C11"], types=dict(context=CtxT, violation_builder=SEBuilderT),
+@contract(LU + "parse_python_ast", props=["C11", "C12"], types=dict(context=CtxT, violation_builder=SEBuilderT),
           returns=TupleOf(PyNode, SeqOf(ViolationT)), raises=[])
 class ParsePythonAst:
     def ensures_total(result):
@@ -205,32 +222,46 @@ class ParsePythonAst:
     def ensures_tree_or_one_syntax_error_notice(result):
         return (result[0] is not None) == (len(result[1]) == 0) and len(result[1]) <= 1
 
+    def ensures_parses_exactly_the_file_content(context, result):
+        # C12: ast line numbers are line numbers of the file only if the parsed text IS the file content
+        return implies(result[0] is not None, ast_positions(result[0]) == ast_positions(
+            ast_module_of(context.file_content if context.file_content else "")))
 
-@contract("src/linters/print_statements/linter.py::PrintStatementRule._parse_python_code", props=["C11"],
+
+@contract("src/linters/print_statements/linter.py::PrintStatementRule._parse_python_code", props=["C11", "C12"],
           types=dict(code=Opt(Str)), returns=PyNode, raises=[])
 class PrintParsePythonCode:
     def ensures_total(result):
         # raise set [] is exact: SyntaxError, RecursionError and MemoryError of ast.parse are all contained
         return True
 
+    def ensures_parses_exactly_the_given_text(code, result):
+        return implies(result is not None, ast_positions(result) == ast_positions(ast_module_of(code if code else "")))
+
 
 @contract("src/linters/print_statements/conditional_verbose_rule.py::ConditionalVerboseRule._parse_python_code",
-          props=["C11"], types=dict(code=Opt(Str)), returns=PyNode, raises=[])
+          props=["C11", "C12"], types=dict(code=Opt(Str)), returns=PyNode, raises=[])
 class VerboseParsePythonCode:
     def ensures_total(result):
         # raise set [] is exact: SyntaxError, RecursionError and MemoryError of ast.parse are all contained
         return True
 
+    def ensures_parses_exactly_the_given_text(code, result):
+        return implies(result is not None, ast_positions(result) == ast_positions(ast_module_of(code if code else "")))
 
-@contract("src/linters/method_property/linter.py::MethodPropertyRule._parse_python_code", props=["C11"],
+
+@contract("src/linters/method_property/linter.py::MethodPropertyRule._parse_python_code", props=["C11", "C12"],
           types=dict(code=Opt(Str)), returns=PyNode, raises=[])
 class MethodPropertyParsePythonCode:
     def ensures_total(result):
         # raise set [] is exact: SyntaxError, RecursionError and MemoryError of ast.parse are all contained
         return True
 
+    def ensures_parses_exactly_the_given_text(code, result):
+        return implies(result is not None, ast_positions(result) == ast_positions(ast_module_of(code if code else "")))
 
-@contract("src/linters/lbyl/python_analyzer.py::_parse_python_code", props=["C11"], types=dict(code=Str), returns=PyNode,
+
+@contract("src/linters/lbyl/python_analyzer.py::_parse_python_code", props=["C11", "C12"], types=dict(code=Str), returns=PyNode,
           raises=[])
 class LbylParsePythonCode:
     def ensures_total(result):
@@ -239,6 +270,9 @@ class LbylParsePythonCode:
 
     def ensures_blank_source_is_not_parsed(code, result):
         return implies(code == "", result is None)
+
+    def ensures_parses_exactly_the_given_text(code, result):
+        return implies(result is not None, ast_positions(result) == ast_positions(ast_module_of(code)))
 
 
 @contract("src/linters/stateless_class/python_analyzer.py::analyze_code", props=["C11"],
@@ -338,3 +372,140 @@ class FilterExtractLineCountContainment:
 class GeneratorExtractLineCountContainment:
     def ensures_total(message, result):
         return True
+
+
+# ================================================================== regex literals: no catastrophic-backtracking SHAPE
+# "terminates" is not a contract clause (the regex engine's running time is outside every proof). What CAN be decided
+# from the source is a syntactic SUFFICIENT condition for exponential backtracking in a backtracking engine (Python's
+# `re`): an unbounded repetition whose body is, up to nullable parts, itself an unbounded repetition -- (X+)+, (X*)*,
+# (X+ Y*)+ ... -- because a run of X-characters can then be split between iterations in exponentially many ways and all
+# are tried when the overall match fails. One obligation per regex literal handed to re.* under src/ (and per other
+# string constant that contains a quantified group). NOT claimed: absence of polynomial blow-ups (adjacent overlapping
+# repeats), ambiguity through alternation, patterns built at run time.
+import os as _os  # noqa: E402
+import re as _re  # noqa: E402
+import re._parser as _sre_parse  # noqa: E402
+from re._constants import (MAX_REPEAT as _MAXR, MIN_REPEAT as _MINR, SUBPATTERN as _SUB, BRANCH as _BR, AT as _AT,  # noqa: E402
+                           ASSERT as _AS, ASSERT_NOT as _ASN, GROUPREF as _GREF, MAXREPEAT as _INF)
+from pyvc.api import custom  # noqa: E402
+
+_RE_FUNCS = {"compile", "search", "match", "fullmatch", "sub", "subn", "split", "findall", "finditer"}
+
+
+def _re_unbounded(hi):
+    return hi is _INF or (isinstance(hi, int) and hi >= 1000)
+
+
+def _re_nullable_item(op, av):
+    if op in (_MAXR, _MINR):
+        return av[0] == 0 or _re_nullable(av[2])
+    if op is _SUB:
+        return _re_nullable(av[3])
+    if op is _BR:
+        return any(_re_nullable(b) for b in av[1])
+    if op in (_AT, _AS, _ASN, _GREF):
+        return True
+    if str(op) == "ATOMIC_GROUP":
+        return _re_nullable(av)
+    if str(op) == "POSSESSIVE_REPEAT":
+        return av[0] == 0 or _re_nullable(av[2])
+    return False
+
+
+def _re_nullable(seq):
+    return all(_re_nullable_item(op, av) for op, av in seq)
+
+
+def _re_flatten(seq):
+    out = []
+    for op, av in seq:
+        if op is _SUB:
+            out.extend(_re_flatten(av[3]))
+        else:
+            out.append((op, av))
+    return out
+
+
+def _re_body_splits_ambiguously(body):
+    items = _re_flatten(body)
+    for i, (op, av) in enumerate(items):
+        if op in (_MAXR, _MINR) and _re_unbounded(av[1]):
+            if all(_re_nullable_item(o, a) for o, a in items[:i] + items[i + 1:]):
+                return True
+    return False
+
+
+def regex_backtracking_shapes(pattern):
+    """Descriptions of the catastrophic-backtracking shapes found in a pattern ([] = none; None = not a valid regex)."""
+    try:
+        tree = _sre_parse.parse(pattern)
+    except Exception:  # noqa
+        return None
+    found = []
+
+    def walk(seq):
+        for op, av in seq:
+            if op in (_MAXR, _MINR):
+                if _re_unbounded(av[1]) and _re_body_splits_ambiguously(av[2]):
+                    found.append("unbounded repetition whose body is (up to nullable parts) an unbounded repetition")
+                walk(av[2])
+            elif op is _SUB:
+                walk(av[3])
+            elif op is _BR:
+                for b in av[1]:
+                    walk(b)
+            elif op in (_AS, _ASN):
+                walk(av[1])
+            elif str(op) == "ATOMIC_GROUP":
+                walk(av)
+            elif str(op) == "POSSESSIVE_REPEAT":
+                walk(av[2])
+    walk(tree)
+    return found
+
+
+def regex_literals(root):
+    """(site id, line, pattern): string literals passed as the pattern of re.<fn>(...), and any other single-line string
+    constant that contains a quantified group `)+`, `)*`, `){n,}` and parses as a regex."""
+    out = []
+    for dp, dns, fns in _os.walk(_os.path.join(root, "src")):
+        dns.sort()
+        for fn in sorted(fns):
+            if not fn.endswith(".py"):
+                continue
+            path = _os.path.join(dp, fn)
+            rel = _os.path.relpath(path, root)
+            with open(path, encoding="utf-8") as fh:
+                tree = ast.parse(fh.read())
+            seen, k = set(), 0
+            for n in ast.walk(tree):
+                if isinstance(n, ast.Call) and n.args and isinstance(n.args[0], ast.Constant) and isinstance(n.args[0].value, str):
+                    f = n.func
+                    nm = f.attr if isinstance(f, ast.Attribute) else f.id if isinstance(f, ast.Name) else None
+                    if nm in _RE_FUNCS and (isinstance(f, ast.Name) or isinstance(f.value, ast.Name)):
+                        seen.add(id(n.args[0]))
+                        out.append((f"{rel}#re.{nm}#{k}", n.args[0].lineno, n.args[0].value))
+                        k += 1
+            for n in ast.walk(tree):
+                if isinstance(n, ast.Constant) and isinstance(n.value, str) and id(n) not in seen and "\n" not in n.value \
+                        and len(n.value) < 400 and _re.search(r"\)[+*]|\)\{\d*,\}", n.value) \
+                        and regex_backtracking_shapes(n.value) is not None:
+                    out.append((f"{rel}#const#{k}", n.lineno, n.value))
+                    k += 1
+    return out
+
+
+@custom("c11-regex-backtracking-shape", props=["C11"])
+def c11_regex_backtracking_shape(ctx):
+    obs = []
+    for sid, line, pat in regex_literals(ctx["repo"]):
+        shapes = regex_backtracking_shapes(pat)
+        ok = shapes == [] or shapes is None
+        obs.append({"name": f"c11-regex-backtracking-shape/{sid}", "kind": "post", "verdict": "discharged" if ok else "refuted",
+                    "solver": "sre-parse-scan", "ms": 0.0, "carries": True, "lineno": line,
+                    "note": ("no nested-unbounded-quantifier shape (syntactic sufficient condition only)" if ok else
+                             f"pattern {pat!r}: {shapes[0]} -- exponential backtracking on a long run followed by a mismatch")})
+    if not obs:
+        obs.append({"name": "c11-regex-backtracking-shape/found-patterns", "kind": "post", "verdict": "unknown", "solver": "scan",
+                    "ms": 0.0, "carries": True, "lineno": 0, "note": "no regex literal found under src/"})
+    return obs
